@@ -47,6 +47,9 @@ def runs(tier):
                                                  KindPairs={('complex', 'complex')})))
     out.append(dict(name='bc', nshards=1, constants=dict(base, RanksS={1, 2} if q else {1, 2, 3}, Scenarios={'ctor'},
                                                          Ops={'BuildCore'}, KindPairs={('real', 'real')})))
+    out.append(dict(name='big', nshards=8, constants=dict(base, MaxD=4, MaxDB=4, DimsR={4}, DimsC={1}, RanksS={4}, Lean=True, Scenarios={'single'},
+                                                          Ops={'TT2QTT', 'RankTranspose', 'Diag'}, QL=2,
+                                                          KindPairs={('real', 'real')})))
     return out
 
 
